@@ -263,7 +263,8 @@ def check_c15(prop, tier):
         size = max(1, len(items) // (2 * common.NCPU) + 1)
         chunks = [(items[i:i + size], i, work) for i in range(0, len(items), size)]
         with mp.get_context("fork").Pool(common.NCPU) as pool:
-            events = [e for ch in pool.map(_job, chunks) for e in ch]
+            events = [e for ch in pool.map(common.Guarded(_job), chunks) for e in ch]
+        events = common.split_broken(res, prop, events)
         for i, e in enumerate(events):
             e["id"] = i
         for ev in events:
